@@ -277,6 +277,12 @@ func (s *Server) blobUploadPost(repoStr string) http.HandlerFunc {
 				return
 			}
 			err = bc.Verify(d)
+			if err != nil && errors.Is(err, types.ErrNotFound) {
+				// the session was removed while the request was being processed (limit of sessions per repository)
+				w.WriteHeader(http.StatusBadRequest)
+				_ = types.ErrRespJSON(w, types.ErrInfoBlobUploadUnknown("upload session not found"))
+				return
+			}
 			if err != nil {
 				_ = bc.Cancel()
 				w.WriteHeader(http.StatusBadRequest)
@@ -286,6 +292,11 @@ func (s *Server) blobUploadPost(repoStr string) http.HandlerFunc {
 			}
 			err = bc.Close()
 			if err != nil {
+				if errors.Is(err, types.ErrNotFound) {
+					w.WriteHeader(http.StatusBadRequest)
+					_ = types.ErrRespJSON(w, types.ErrInfoBlobUploadUnknown("upload session not found"))
+					return
+				}
 				w.WriteHeader(http.StatusInternalServerError)
 				s.log.Info("failed to close blob", "repo", repoStr, "err", err)
 				return
